@@ -120,7 +120,48 @@ pub struct C15Scenario {
 
 pub struct C15;
 
+/// Two independent tasks in one group: the first leaves a line unterminated (a prompt, a progress text) across
+/// several flush ticks while the second writes more than two pipe buffers; then the first finishes its line.
+fn gen_c15_prompt_then_flood(rng: &mut Rng) -> C15Scenario {
+    let mut targets = vec![];
+    let mut cmd_files = vec![];
+    for i in 0..2 {
+        let path = format!("t{:02}", i);
+        cmd_files.push(CmdFile { target: path.clone(), command: "build".into(), rel: WorldSpec::default_cmd_rel(&path, "build"), exec: true, broken: false });
+        targets.push(TargetSpec { path, ..Default::default() });
+    }
+    let spec = WorldSpec { targets, cmd_files, files: vec![], sequences: vec![], max_retained_runs: 2, gitignore: vec![], git: true, lock_host: None, default_ports: 0 };
+    let mut script = RunScript::simple(RunOpts { commands: vec!["build".into()], ..Default::default() });
+    let (fa, fb) = (if rng.chance(1, 2) { 1u8 } else { 2 }, if rng.chance(1, 2) { 1u8 } else { 2 });
+    let mut flood = Vec::new();
+    let total = 150 * 1024 + rng.below(100 * 1024);
+    let mut n = 0;
+    while flood.len() < total {
+        n += 1;
+        flood.extend_from_slice(format!("build@t01 fd{} flood line {} {}\n", fb, n, "z".repeat(rng.below(120))).as_bytes());
+    }
+    script.behav.push(Behav { command: "build".into(), target: "t00".into(), outs: vec![
+        OutStep { fd: fa, hex: hex(format!("build@t00 fd{} waiting for the other task ... ", fa).as_bytes()), pause_ms: 0, close: false },
+        OutStep { fd: fa, hex: hex(b"done\n"), pause_ms: 0, close: false },
+    ], code: 0, exit_pause_ms: 0, early_exit: false, hold_pipes_ms: 0, outs_again: vec![] });
+    script.behav.push(Behav { command: "build".into(), target: "t01".into(), outs: vec![
+        // a real pause of several flush intervals before the flood: the unterminated line has been through a tick
+        OutStep { fd: fb, hex: hex(&flood), pause_ms: 80, close: false },
+    ], code: 0, exit_pause_ms: 0, early_exit: false, hold_pipes_ms: 0, outs_again: vec![] });
+    script.strategy = Strategy::RoundRobin;
+    script.sched_seed = rng.next_u64();
+    script.workers = Some(*rng.pick(&[1u32, 2, 4, 16]));
+    script.flush_ms = Some(*rng.pick(&[5u64, 20]));
+    script.rand_seed = Some(rng.next_u64() % 1_000_000);
+    let listener = Some(ListenerCfg { stdout: true, stderr: true, targets: vec![], commands: vec![] });
+    C15Scenario { run: RunScenario { spec, mode: Mode::All, script, hang_ms: default_hang_ms() }, listener }
+}
+
 fn gen_c15(seed: u64, idx: usize, _tier: Tier) -> C15Scenario {
+    let mut rng0 = Rng::new(scenario_seed(seed, "C15p", idx));
+    if rng0.chance(1, 15) {
+        return gen_c15_prompt_then_flood(&mut rng0);
+    }
     let mut rng = Rng::new(scenario_seed(seed, "C15", idx));
     let p = GenParams { max_t: 6, undefined_pct: 5, ..Default::default() };
     let spec = gen_world(&mut rng, &p);
